@@ -153,7 +153,12 @@ func (p *persistInst) Apply(ev core.Event) map[string]any {
 			if raw, ok := p.st.Data[p.key(i)]; ok {
 				var other allocator.DistributedAllocation
 				if json.Unmarshal(raw, &other) == nil && other.Prefix == g.UnitNet(arg).String() {
-					return res(false, arg, fmt.Errorf("skipped: address recorded for another subscriber"), false)
+					// the conflicting announcement reaches the watch callback only; the statement is silent about what
+					// it should do with it (ok = false: no claim), but whatever it does must not break anything else
+					rec := allocator.DistributedAllocation{PoolID: "p", SubscriberID: id, Prefix: g.UnitNet(arg).String(), Epoch: p.da.GetCurrentEpoch(), AllocatedAt: time.Unix(0, 0).UTC()}
+					b, _ := json.Marshal(rec)
+					p.st.Announce(p.key(sub), b)
+					return res(false, arg, fmt.Errorf("conflict: address recorded for another subscriber; announced to the watch callback only"), false)
 				}
 			}
 		}
